@@ -8,9 +8,15 @@ case = {"iw": w, "apps": [app per stream], "ops": [op ...]}
       | ["manual", [chunk lengths]]      the history says when the next chunk is written / the response is finished
       | ["producer", chunk, n]           IPushProducer registered on the request: writes chunks while not paused,
                                          unregisters and finishes after the n-th
+      | ["pre", preamble, mode, chunk, n]   writes `preamble` bytes directly, THEN registers a producer for n chunks;
+                                         mode "push" (IPushProducer, started unless it was paused during registration)
+                                         or "pull" (IPullProducer: H2Stream wraps it in _PullToPush / cooperate();
+                                         the global Cooperator is replaced by one that ticks on the harness reactor;
+                                         pull cases are checked by the oracle only, the model has no cooperator)
+  "late": L  (optional) the last L applications are not requested at setup; op ["req"] sends the next such request
   op  = ["adv"] one pending reactor call (one _sendPrioritisedData iteration) | ["wu", k, inc] | ["iw", v] | ["mf", v]
-      | ["write", k] | ["finish", k]     k = 0: connection window, k >= 1: the k-th stream (id 2k-1)
-All requests are sent (and rendered) before the first op.  After the history the peer grants whatever window is still
+      | ["write", k] | ["finish", k] | ["req"]     k = 0: connection window, k >= 1: the k-th stream (id 2k-1)
+Requests not marked late are sent (and rendered) before the first op.  After the history the peer grants whatever window is still
 missing (per stream only where the stream window is short, on the connection only where that one is short) and the
 reactor is pumped until quiescent: every written byte must have arrived and every finished response must be ended.
 """
@@ -67,14 +73,15 @@ class _Windows:
 
     def __init__(self, iw, n):
         self.iw, self.cw, self.mf = iw, 65535, 16384
-        self.sw = {k: iw for k in range(1, n + 1)}
+        self.sw = {k: iw for k in range(1, n + 1)}   # a stream not yet requested follows the initial window
         self.done = set()
+        self.opened = set()
 
     def op(self, op):
         if op[0] == "wu":
             if op[1] == 0:
                 self.cw += op[2]
-            elif op[1] in self.sw and op[1] not in self.done:
+            elif op[1] in self.sw and op[1] not in self.done and op[1] in self.opened:
                 self.sw[op[1]] += op[2]
         elif op[0] == "iw":
             for k in self.sw:
@@ -89,6 +96,15 @@ class _Windows:
 
 
 def impl(case) -> str:
+    from twisted.internet import task as _task
+    saved = _task._theCooperator
+    try:
+        return _impl(case)
+    finally:
+        _task._theCooperator = saved
+
+
+def _impl(case) -> str:
     if _VENDOR not in sys.path:
         sys.path.insert(0, _VENDOR)
     import h2.config
@@ -116,7 +132,7 @@ def impl(case) -> str:
     class Prod:
         def __init__(self, k, request, chunk, count):
             self.k, self.request, self.chunk, self.count = k, request, chunk, count
-            self.sent, self.paused, self.done = 0, True, False
+            self.sent, self.paused, self.done = 0, False, False
 
         def run(self):
             self.paused = False
@@ -141,6 +157,26 @@ def impl(case) -> str:
             self.paused = True
             self.done = True
 
+    class PullProd:
+        """IPullProducer: one chunk per resumeProducing; unregisters and finishes after the last"""
+
+        def __init__(self, k, request, chunk, count):
+            self.k, self.request, self.chunk, self.count = k, request, chunk, count
+            self.sent, self.done = 0, False
+
+        def resumeProducing(self):
+            if self.sent < self.count:
+                self.sent += 1
+                emit(self.k, self.request, self.chunk)
+            if self.sent >= self.count and not self.done:
+                self.done = True
+                self.request.unregisterProducer()
+                finished.add(self.k)
+                self.request.finish()
+
+        def stopProducing(self):
+            self.done = True
+
     class Body(resource.Resource):
         isLeaf = True
 
@@ -154,14 +190,33 @@ def impl(case) -> str:
                 request.finish()
             elif app[0] == "manual":
                 reqs[k] = [request, list(app[1])]
-            else:
+            elif app[0] == "producer":
                 p = prods[k] = Prod(k, request, app[1], app[2])
                 request.registerProducer(p, True)
-                p.run()
+                if not p.paused:
+                    p.run()
+            else:
+                _, pre, mode, chunk, count = app
+                if pre:
+                    emit(k, request, pre)
+                if mode == "push":
+                    p = prods[k] = Prod(k, request, chunk, count)
+                    request.registerProducer(p, True)
+                    if not p.paused:
+                        p.run()
+                else:
+                    p = prods[k] = PullProd(k, request, chunk, count)
+                    request.registerProducer(p, False)
             return server.NOT_DONE_YET
 
     reactor = _StepReactor()
+    # pull producers are driven by twisted.internet.task.cooperate(): let the global Cooperator tick on this reactor,
+    # one work unit per tick (restored by impl())
+    from twisted.internet import task as _task
+    _task._theCooperator = _task.Cooperator(terminationPredicateFactory=lambda: (lambda: True),
+                                            scheduler=lambda f: reactor.callLater(0, f))
     site = server.Site(Body())
+
     conn = _http2.H2Connection(reactor=reactor)
     conn.timeOut = None
     conn.requestFactory = server.Request
@@ -214,10 +269,17 @@ def impl(case) -> str:
             return "-"
         return ",".join(frames) + ("/" + ",".join(pev) if pev else "")
 
-    pump()
-    for k in range(1, n + 1):
+    late = list(range(n - case.get("late", 0) + 1, n + 1))
+
+    def request(k):
         cl.send_headers(2 * k - 1, [(b":method", b"GET"), (b":path", b"/?k=%d" % k), (b":scheme", b"http"),
                                     (b":authority", b"x")], end_stream=True)
+        win.opened.add(k)
+
+    pump()
+    for k in range(1, n + 1):
+        if k not in late:
+            request(k)
     pump()
     out = [obs()]
     dead = None
@@ -236,7 +298,7 @@ def impl(case) -> str:
                 if k == 0:
                     cl.increment_flow_control_window(op[2])
                     win.op(op)
-                elif k <= n and k not in ended:
+                elif k <= n and k not in ended and k in win.opened:
                     cl.increment_flow_control_window(op[2], 2 * k - 1)
                     win.op(op)
             elif op[0] == "iw":
@@ -253,6 +315,9 @@ def impl(case) -> str:
                 if r and op[1] not in finished:
                     finished.add(op[1])
                     r[0].finish()
+            elif op[0] == "req":
+                if late:
+                    request(late.pop(0))
             pump()
         except h2.exceptions.FlowControlError:
             # raised inside the server's sending loop (h2 refuses to exceed the window): the loop is not rescheduled
@@ -268,7 +333,7 @@ def impl(case) -> str:
             raise h2.exceptions.FlowControlError()
         need = {}
         for k in range(1, n + 1):
-            if k in ended:
+            if k in ended or k not in win.opened:
                 continue
             todo = written[k] - len(got.get(k, b""))
             if k in prods:
@@ -282,7 +347,7 @@ def impl(case) -> str:
             cl.increment_flow_control_window(total + 1000 - win.cw)
             win.cw = total + 1000
         pump()
-        for _ in range(200 + 4 * n + total // 1000):
+        for _ in range(400 + 4 * n + total // 500 + 4 * sum(getattr(p, 'count', 0) for p in prods.values())):
             if not reactor.step():
                 break
             pump()
@@ -290,6 +355,9 @@ def impl(case) -> str:
         dead = dead or ("X:FlowControlError-late" if not violations else None)
     final = []
     for k in range(1, n + 1):
+        if k not in win.opened:
+            final.append("ok")
+            continue
         want = bytes(_byte(k - 1, j) for j in range(written[k]))
         have = bytes(got.get(k, b""))
         if k in prods and not prods[k].done:
@@ -322,9 +390,14 @@ def oracle(case, obs):
     neg_seen = False
     if any(e and e[0] in "dex" for e in steps[0].partition("/")[0].split(",")):
         return Failure(case, "DATA sent before the sending loop ran: " + steps[0], "data-at-setup")
+    late = list(range(n - case.get("late", 0) + 1, n + 1))
+    win.opened = set(range(1, n + 1)) - set(late)
     for i, (op, st) in enumerate(zip(case["ops"], steps[1:])):
         where = f"op {i} {op}: "
-        if not (op[0] == "wu" and op[1] != 0 and op[1] in win.done):
+        if op[0] == "req":
+            if late:
+                win.opened.add(late.pop(0))
+        elif not (op[0] == "wu" and op[1] != 0 and op[1] in win.done):
             win.op(op)
         if win.negative():
             neg_seen = True
@@ -367,10 +440,14 @@ def oracle(case, obs):
         what = {"noend": "finished but END_STREAM never sent",
                 "corrupt": "body bytes wrong or out of order",
                 "ended-unfinished": "END_STREAM sent before the application finished"}.get(f, f)
+        if kind == "pre":
+            kind = f"{apps[k][2]} producer registered after a {apps[k][1]}-byte preamble"
         tag = ("producer-never-resumed" if f.startswith("producer-stalled") else
                "finished-stream-never-completes" if f == "noend" else
                "written-data-never-sent" if f.startswith("short") else "body-" + f)
-        if tag == "producer-never-resumed" and any(o[0] == "iw" for o in case["ops"]):
+        if tag == "producer-never-resumed" and apps[k][0] == "pre" and apps[k][1] > 0:
+            tag = f"{apps[k][2]}-producer-registered-after-preamble-never-resumed"
+        elif tag == "producer-never-resumed" and any(o[0] == "iw" for o in case["ops"]):
             tag += "-after-settings-change"
         return Failure(case, f"after the peer granted ample window on both levels and the reactor went quiescent, "
                        f"stream {sid} ({kind}) is: {what}", tag)
@@ -510,9 +587,48 @@ def _gen_conn_limited_producer(rng):
     return {"iw": 1 << 24, "apps": apps, "ops": ops + tail}
 
 
+def _gen_preamble_producer(rng):
+    """a response that writes a preamble directly and only then registers a producer, with the preamble around the
+    window (==, <, >), requested before the loop first runs or after the sender has parked; then arbitrary
+    WINDOW_UPDATE / SETTINGS sequences"""
+    connlimited = rng.random() < 0.25
+    w = 65535 if connlimited else rng.choice([10, 100, 100, 1000, 5000])
+    iw = (1 << 24) if connlimited else w
+    r = rng.random()
+    pre = (w if r < 0.35 else _len_near(rng, w) if r < 0.55 else w + rng.randrange(1, 2 * w) if r < 0.75
+           else rng.randrange(0, w))
+    pre = min(pre, 100000)
+    mode = rng.choice(["push", "pull"])
+    chunk = rng.choice([1, 7, 60, w // 2 + 1, w])
+    app = ["pre", pre, mode, min(chunk, 20000), rng.randrange(1, 6)]
+    apps, ops, late = [app], [], 0
+    if rng.random() < 0.3:
+        apps.insert(0, ["static", [rng.randrange(1, 50)]])
+    if rng.random() < 0.6:
+        late = 1
+        ops += [["adv"]] * rng.randrange(0, 2 * len(apps) + 2) + [["req"]]
+    k = len(apps)
+    for _ in range(rng.randrange(2, 30)):
+        x = rng.random()
+        if x < 0.55:
+            ops.append(["adv"])
+        elif x < 0.8:
+            ops.append(["wu", rng.choice([k, k, 0]), rng.choice([1, 5, w // 2 + 1, w, 2 * w, 65535])])
+        elif x < 0.9:
+            ops.append(["wu", 0, rng.choice([w, 65535])])
+        else:
+            ops.append(["iw", max(0, iw + rng.choice([-w, -3, 5, w, 3 * w]))])
+    c = {"iw": iw, "apps": apps, "ops": ops}
+    if late:
+        c["late"] = late
+    return c
+
+
 def gen(rng, tier):
     cases = []
     q = tier == "quick"
+    for _ in range(250 if q else 5000):
+        cases.append(_gen_preamble_producer(rng))
     for _ in range(200 if q else 5000):
         iw, apps = _gen_static(rng, 2000)
         n = len(apps)
@@ -551,6 +667,17 @@ def corpus():
          "ops": [["adv"]] * 7 + [["wu", 0, 65535]] + [["adv"]] * 4},
         {"iw": 1 << 24, "apps": [["static", [535]], ["producer", 6500, 20]],
          "ops": [["adv"]] * 14 + [["wu", 0, 65535]] + [["adv"]] * 4},
+        # preamble == window written directly after the sender parked (so it is sent at once), then a push producer
+        # is registered at an exhausted window; the peer reopens the window
+        {"iw": 100, "apps": [["pre", 100, "push", 60, 4]], "late": 1,
+         "ops": [["adv"], ["req"], ["adv"], ["wu", 1, 100], ["adv"], ["adv"], ["wu", 1, 1000], ["adv"], ["adv"]]},
+        # preamble > window, then a pull producer
+        {"iw": 100, "apps": [["pre", 230, "pull", 60, 4]], "late": 1,
+         "ops": [["adv"], ["req"], ["adv"], ["adv"], ["wu", 1, 100], ["adv"], ["adv"], ["adv"], ["wu", 1, 1000],
+                 ["adv"], ["adv"], ["adv"]]},
+        # a small response delivered first, then a producer that fills what is left of the connection window
+        {"iw": 1 << 24, "apps": [["static", [535]], ["producer", 6500, 20]], "late": 1,
+         "ops": [["adv"], ["adv"], ["req"]] + [["adv"]] * 12 + [["wu", 0, 65535]] + [["adv"]] * 4},
         # data written at an exhausted window while the sender is parked, then the window is reopened
         {"iw": 10, "apps": [["manual", [10, 5]]], "ops": [["write", 1], ["adv"], ["adv"], ["write", 1], ["wu", 1, 20],
                                                           ["adv"], ["adv"]]},
@@ -569,14 +696,27 @@ def to_coq(case):
             return f"SetMF ({o[1]})%Z"
         if o[0] == "write":
             return f"AppWrite {2 * o[1] - 1}%nat"
+        if o[0] == "req":
+            if not late:
+                return "AppWrite 99999%nat"      # nothing left to request: no-op
+            k = late.pop(0)
+            return f"Req {2 * k - 1}%nat ({app(_apps(case)[k - 1])})"
         return f"AppFinish {2 * o[1] - 1}%nat"
+
+    if any(a[0] == "pre" and a[2] == "pull" for a in _apps(case)):
+        return None          # no cooperator in the model: oracle only
 
     def app(a):
         if a[0] == "producer":
             return f"Producer ({a[1]})%Z {a[2]}%nat"
+        if a[0] == "pre":
+            return f"PreProducer ({a[1]})%Z ({a[3]})%Z {a[4]}%nat"
         return ("Static " if a[0] == "static" else "Manual ") + coq_list([f"({x})%Z" for x in a[1]], "Z")
 
-    return (f"(({case['iw']})%Z, {coq_list([app(a) for a in _apps(case)], 'application')}, "
+    n = len(_apps(case))
+    late = list(range(n - case.get("late", 0) + 1, n + 1))
+    early = [a for k, a in enumerate(_apps(case), 1) if k not in late]
+    return (f"(({case['iw']})%Z, {coq_list([app(a) for a in early], 'application')}, "
             f"{coq_list([op(o) for o in case['ops']], 'op')})")
 
 
@@ -585,7 +725,7 @@ def shrink(case):
     for i in range(len(ops)):
         yield {**case, "ops": ops[:i] + ops[i + 1:]}
     a = _apps(case)
-    if len(a) > 1:
+    if len(a) > 1 and not case.get("late"):
         k = len(a)
         yield {"iw": case["iw"], "apps": a[:-1],
                "ops": [o for o in ops if not (o[0] in ("wu", "write", "finish") and o[1] == k)]}
